@@ -88,8 +88,10 @@ def main():
             shutil.copy(os.path.join(a.dir, "patch.diff"), dst)
             shutil.copy(os.path.join(a.dir, "demo.py"), dst)
         meta["breaks_property"] = meta.get("property")
+        prev_suite = (meta.get("confirmed") or {}).get("baseline_suite_with_change")
         meta["confirmed"] = {"demo_exit_unchanged": res["demo_clean"], "demo_exit_with_change": res["demo_patched"],
-                             "baseline_suite_with_change": res["suite_patched"],
+                             # (a re-confirmation may skip the suite: the patch is unchanged, the earlier result stands)
+                             "baseline_suite_with_change": res["suite_patched"] if res["suite_patched"] is not None else prev_suite,
                              "ran": "tools/seedtest.py (scratch copies of /repo; demo.py with and without the patch; baseline suite with the patch; ./check <id> --tier %s against the patched copy)" % a.tier}
         meta["checks"] = res["checks"]
         with open(os.path.join(dst, "meta.json"), "w") as f:
